@@ -133,7 +133,7 @@ STORAGE_NAMES = ["u", "v", "w", "p", "q", "r", "s", "t", "x", "y", "z", "g", "h"
 
 
 class Gen:
-    def __init__(self, rng, quotas=None):
+    def __init__(self, rng):
         self.rng = rng
 
     # ---------------------------------------------------------- storages
